@@ -252,6 +252,7 @@ class UniformMPS(MPS):
         hdf5_saver.save(self._C, subpath + 'tensors_C')
         hdf5_saver.save(self.chinfo, subpath + 'chinfo')
         hdf5_saver.save(self.segment_boundaries, subpath + 'segment_boundaries')
+        hdf5_saver.save(self.unit_cell_width, subpath + 'unit_cell_width')
         h5gr.attrs['valid_umps'] = self.valid_umps
         h5gr.attrs['norm'] = self.norm
         h5gr.attrs['grouped'] = self.grouped
@@ -415,6 +416,10 @@ class UniformMPS(MPS):
         obj.grouped = hdf5_loader.get_attr(h5gr, 'grouped')
         obj._transfermatrix_keep = hdf5_loader.get_attr(h5gr, 'transfermatrix_keep')
         obj.chinfo = hdf5_loader.load(subpath + 'chinfo')
+        if 'unit_cell_width' in h5gr:
+            obj.unit_cell_width = hdf5_loader.load(subpath + 'unit_cell_width')
+        else:
+            obj.unit_cell_width = len(obj.sites)  # correct for a Chain; see MPS.from_hdf5
         obj.dtype = np.result_type(*(B.dtype for B in obj._AR))
         if 'segment_boundaries' in h5gr:
             obj.segment_boundaries = hdf5_loader.load(subpath + 'segment_boundaries')
